@@ -263,8 +263,16 @@ def check_close_fault(case):
     with loop_mode(b.ctx, "hooks"):
         expect_return(run(b.ctx, scenario()), f"C06/{tool}")
         close_orphans(b.ctx)
-    for src in b.srcs:
-        if getattr(src, "close_raised", False) and not any(e is src.close_fault for e in received):
+    def chain_of(exc):
+        seen = []
+        while exc is not None and not any(exc is x for x in seen):
+            seen.append(exc)
+            exc = exc.__context__ or exc.__cause__
+        return seen
+
+    visible = [x for e in received for x in chain_of(e)]  # when several cleanups fail the later error carries the
+    for src in b.srcs:                                    # earlier ones as its context (as nested finally blocks do)
+        if getattr(src, "close_raised", False) and not any(e is src.close_fault for e in visible):
             raise Violation(f"C06/{tool}/error-from-source-aclose-swallowed",
                             f"{src.name}.aclose() raised {src.close_fault!r} but the consumer received "
                             f"{[repr(e)[:60] for e in received]} take={case['take']}")
